@@ -1018,6 +1018,9 @@ def _get_nodes_in_directed_paths_cyclic(
         node
         for source, target in itt.product(sources, targets)
         for causal_path in nx.all_simple_paths(graph, source, target)
+        # a directed path has at least one edge: drop the trivial path ``[source]`` that
+        # networkx yields when ``source == target``, as the acyclic implementation does
+        if len(causal_path) > 1
         for node in causal_path
     }
 
